@@ -394,10 +394,16 @@ fn role_programs() -> Vec<(String, String)> {
         // the other way round: the binder is function-typed, the callee uses a record parameter of that spelling
         out.push((format!("function-typed binder reuses a record parameter|use binder|argument of the callee|{sn}"), format!("import «?:m»\npub fn «?:user»(k: «?:m».«?:R») {{ {st}use k <- «n:m».«?:give»(k.fld) «f:k»(1) }}{tail}")));
     }
+    // constructors spelled like the built-in ones (a module may declare them): declared here, or imported unqualified
+    for (sn, st) in [("plain", ""), ("after a multi-byte string", "\"→ é😀\" ")] {
+        out.push((format!("constructors spelled like built-ins|declared in the module|expression and pattern|{sn}"), format!("pub type Outcome {{ «t:Ok»(Int) «t:False» }}\n/// é😀\npub fn «?:user»() {{ {st}case «t:Ok»(1) {{ «t:Ok»(n) -> «t:False» «t:False» -> «t:Ok»(2) }} }}\n")));
+        out.push((format!("constructors spelled like built-ins|imported unqualified|expression and pattern|{sn}"), format!("import «?:m».{{«?:Error», «?:Nil»}}\n/// é😀\npub fn «?:user»() {{ {st}case «t:Error»(1) {{ «t:Error»(n) -> «t:Nil» «t:Nil» -> «t:Error»(2) }} }}\n")));
+        out.push((format!("constructors with ordinary names|imported unqualified|expression and pattern|{sn}"), format!("import «?:m».{{«?:Failed», «?:Empty»}}\n/// é😀\npub fn «?:user»() {{ {st}case «t:Failed»(1) {{ «t:Failed»(n) -> «t:Empty» «t:Empty» -> «t:Failed»(2) }} }}\n")));
+    }
     out
 }
 
-const ROLE_M: &str = "pub type R { R(fld: Int) }\npub const c = 1\npub fn show(r: R) -> Int { r.fld }\npub fn with(cb: fn(R) -> Int) -> Int { cb(R(1)) }\npub fn with2(f: fn(Int) -> Int, n: Int, cb: fn(R) -> Int) -> Int { cb(R(f(n))) }\npub fn give(n: Int, cb: fn(fn(Int) -> Int) -> Int) -> Int { cb(fn(x) { x + n }) }\n";
+const ROLE_M: &str = "pub type R { R(fld: Int) }\npub const c = 1\npub fn show(r: R) -> Int { r.fld }\npub fn with(cb: fn(R) -> Int) -> Int { cb(R(1)) }\npub fn with2(f: fn(Int) -> Int, n: Int, cb: fn(R) -> Int) -> Int { cb(R(f(n))) }\npub fn give(n: Int, cb: fn(fn(Int) -> Int) -> Int) -> Int { cb(fn(x) { x + n }) }\npub type Pre { Error(Int) Nil }\npub type Plain { Failed(Int) Empty }\n";
 
 /// (text, marks (start, end, kind))
 fn strip_marks(tpl: &str) -> (String, Vec<(usize, usize, char)>) {
